@@ -221,10 +221,15 @@ def gen_policyset(r: random.Random, hostile: bool = False, rel: bool = False, de
 
 
 def first_rule_types(policy: dict) -> list:
+    """the rules of a document at any nesting depth (tolerant of shapes a WEAKENED schema lets through: non-dict children, non-list `policies`)"""
     out = []
-    for rule in policy.get("rules") or []:
-        out.append(rule)
-    for c in policy.get("policies") or []:
+    if not isinstance(policy, dict):
+        return out
+    rules, kids = policy.get("rules") or [], policy.get("policies") or []
+    for rule in rules if isinstance(rules, list) else []:
+        if isinstance(rule, dict):
+            out.append(rule)
+    for c in kids if isinstance(kids, list) else []:
         out.extend(first_rule_types(c))
     return out
 
